@@ -12,8 +12,28 @@ HARNESSES = [
     A('A_roundtrip', 'H_ROUNDTRIP', 'to_info/from_info round trip on every table entry'),
     A('G_global_queue', 'H_GLOBAL', 'dispatch_get_global_queue over all 2^64 identifiers x 2^64 flags'),
 ]
+# ---- identity part: dispatch_get_specific / dispatch_assert_queue(_not) inside work items, through the shared history harness
+from hist_spec import HH
+ID_ENT = ['dispatch_get_specific', 'dispatch_queue_set_specific', 'dispatch_assert_queue', 'dispatch_assert_queue_not']
+ID_ICALL = ['_dispatch_queue_init_specific']
+def ID(seq, specmask, neg=None, **cfg):
+    extra = ['-DIDENTITY', '-DSPECMASK=%d' % specmask] + (['-DNEGTEST=%d' % neg[1], '-DNEGITEM=%d' % neg[0]] if neg else [])
+    h = HH(seq, extra=extra, entries_extra=ID_ENT, icall_extra=ID_ICALL, stubs_extra=['_dispatch_assert_queue_fail'], name_extra='_id%d%s' % (specmask, ('_neg%d_%d' % neg) if neg else ''), **cfg)
+    h.unwindset += ',_dispatch_thread_frame_find_queue.0:12,dispatch_get_specific.0:6,identity_checks.0:5,identity_checks.1:5,identity_checks.2:5,harness.7:6,harness.8:6,harness.9:6,harness.10:6'
+    return h
+IDH = []
+for mask in (0, 1, 2, 3):
+    IDH += [ID(x, mask, chain=True) for x in ('a', 's', 'a1', 's1', 'b', 'as', 'aRs1')]
+    IDH += [ID(x, mask, chain=True, conc=True) for x in ('a', 's', 'b', 'ab')]
+for mask in (0, 2, 5, 7):
+    IDH += [ID(x, mask, fanin=True) for x in ('a', 'a2', 's2', 'a1', 'aa2', 's1')]
+IDH += [ID(x, 5, indep=True, conc=c) for x in ('a~s2', 's~s2', 'a~s2R', 'b~s2') for c in (False, True)]
+# the assertion API must crash: assert_queue on a queue outside the chain, assert_queue_not on one inside it (the crash ends the path; returning is the violation)
+IDH += [ID('a', 0, neg=(0, 1), chain=True), ID('a1', 0, neg=(0, 0), chain=True), ID('s', 0, neg=(0, 0), chain=True), ID('a', 0, neg=(0, 2), fanin=True), ID('a2', 0, neg=(0, 0), fanin=True),
+        ID('a~s2', 0, neg=(1, 0), indep=True, conc=True), ID('a~s2', 0, neg=(1, 1), indep=True, conc=True), ID('a', 0, neg=(0, 2), indep=True)]
+HARNESSES += IDH
 ASSUMPTIONS = ['attribute table contents are excluded (attributes are used as addresses only); attribute index symbolic over the whole table (count read from the sources by a probe and compared with the documented product 2*2*16*7*3*3)',
                'the oracle decodes indices by the documented field order; division/modulo by constants on both sides',
-               'global queues: the platform clamp (no OS QoS support: MAINTENANCE->BACKGROUND, USER_INTERACTIVE->USER_INITIATED) is part of the oracle']
-LEVEL_TEXT = 'Attribute algebra over the whole table: symbolic index over all 4032 entries (count probed from the sources and compared with the documented product) and arbitrary constructor arguments: each of the four public constructors changes exactly its field, invalid QoS/relative priority leave the attribute unchanged, any two constructors commute, to_info/from_info round-trip. dispatch_get_global_queue over all int-valued identifiers x all 2^64 flags: documented class with the platform clamp, NULL for undefined identifiers/flags. A genuine defect (HIGH priority mapped to the background queue) was found and fixed in /repo.'
-LEVEL_NOTE = 'The identity part of the property (dispatch_get_specific, dispatch_assert_queue inside work items) is NOT covered by a registered harness; queue creation from an attribute (_dispatch_lane_create_with_target) is exercised only through the configurations of the history harness.'
+               'identity: hierarchies of depth 2 (chain, fan-in) and three independent queues; keys on every subset of levels; submission paths async, sync, barrier, redirected through a concurrent queue, and synchronous submission from inside a running item (same thread); dispatch_apply path not covered', 'global queues: the platform clamp (no OS QoS support: MAINTENANCE->BACKGROUND, USER_INTERACTIVE->USER_INITIATED) is part of the oracle']
+LEVEL_TEXT = "Attribute algebra over the whole table: symbolic index over all 4032 entries (count probed from the sources and compared with the documented product) and arbitrary constructor arguments: each of the four public constructors changes exactly its field, invalid QoS/relative priority leave the attribute unchanged, any two constructors commute, to_info/from_info round-trip. dispatch_get_global_queue over all int-valued identifiers x all 2^64 flags: documented class with the platform clamp, NULL for undefined identifiers/flags. A genuine defect (HIGH priority mapped to the background queue) was found and fixed in /repo. Identity: inside work items reached by async, sync, barrier, redirected and nested-synchronous submission, dispatch_get_specific returns the nearest ancestor's value, dispatch_assert_queue accepts exactly the queues of the chain (and of the submitting context for synchronous submissions) and dispatch_assert_queue_not the others (the crash direction is checked by histories that must end in the crash)."
+LEVEL_NOTE = 'Identity part: through the shared history harness on chains, fan-ins and independent queues with keys on every subset of levels; depth <= 2; apply path not covered. Queue creation from an attribute (_dispatch_lane_create_with_target) is exercised only through the configurations of the history harness.'
